@@ -71,7 +71,7 @@ fn gc_threads_asleep() {
 fn gc_threads_settle(want: usize) -> usize {
     let mut n = gc_threads();
     let t0 = std::time::Instant::now();
-    while n != want && t0.elapsed() < std::time::Duration::from_millis(1500) {
+    while n != want && t0.elapsed() < std::time::Duration::from_millis(400) {
         std::thread::sleep(std::time::Duration::from_micros(200));
         n = gc_threads();
     }
@@ -1096,6 +1096,9 @@ fn run_case<Kd: K>(case: &Case, sink: &mut dyn FnMut(String)) {
         if tok.is_empty() {
             continue;
         }
+        // a panic inside the static library aborts the process (it is built with panic=abort) and
+        // the lines of the running case are lost: leave a trace of where it happened on stderr
+        eprintln!("at: case {} call [{op}]", it.caseid);
         let res = it.exec(&tok);
         sink(format!("{op} -> {res}"));
     }
